@@ -295,10 +295,8 @@ def run(ck: Check):
     ck.notes.append("registered against the tree with fixes/C01-31c-unsigned-index.diff and fixes/C02-*.diff applied; "
                     "PackedSwitch's max_size rule and FillArrayData's silent truncation are modelled as they are "
                     "(they are unreachable for yielded items once the end-of-code check is in place)")
-    ck.partial.append("sweep_assembled is proved under the hypothesis StepsOK (each item is what the loop builds at its prefix-sum "
-                      "offset), not yet from a decidable Valid predicate for every assembled program; off_to_pos / get_ins_off are "
-                      "modelled and compared, not proved")
-
+    ck.partial.append("sweep_assembled (exact recovery of every Valid program) is stated for the non-ODEX sweep; the ODEX "
+                      "sweep of assembled programs is covered by sweep_assembled_partial, the correspondence and the oracle")
 
 def replay(ck: Check, rp):
     _real()
